@@ -171,3 +171,33 @@ fn map_register_contract() {
     let m = map_register(r);
     assert!(m as usize == MAP[r as usize], "ensures: register convention r0..r10 -> rax,rdi,rsi,rdx,r9,r8,rbx,r13,r14,r15,rbp");
 }
+
+// ------------------------------------------------------------------ JitMemory::new, no_std variant (C20, C12)
+// Caller-supplied executable memory: too small or unaligned => Err; otherwise the two passes run on it.
+#[repr(align(4096))]
+pub struct Page(pub [u8; 8192]);
+pub static mut EXEC: Page = Page([0; 8192]);
+#[kani::proof]
+#[kani::unwind(6)]
+fn jit_memory_new_nostd() {
+    // mov64 r0, 7 ; exit
+    let prog: [u8; 16] = [0xb7, 0, 0, 0, 7, 0, 0, 0, 0x95, 0, 0, 0, 0, 0, 0, 0];
+    let helpers: HashMap<u32, ebpf::Helper> = HashMap::with(None);
+    let skew: usize = kani::any();
+    let len: usize = kani::any();
+    kani::assume(skew < 2 && len <= 4096 && (len == 4096 || len == 4000));
+    let mem_slice: &'static mut [u8] = unsafe { &mut EXEC.0[skew..skew + len] };
+    // counting pass alone, to know what must fit
+    let mut counter = JitMemory::counter();
+    let mut c = JitCompiler::new();
+    assert!(c.jit_compile(&mut counter, &prog, false, false, &helpers).is_ok(), "ensures: counting pass succeeds");
+    let need = counter.offset;
+    assert!(need > 0 && need <= 4096, "ensures: a two-instruction program needs less than a page");
+    match JitMemory::new(&prog, mem_slice, &helpers, false, false) {
+        Ok(m) => {
+            assert!(skew == 0 && len == 4096, "ensures: memory smaller than the page-rounded size, or not page aligned, is refused");
+            assert!(m.offset == need && m.write_enabled, "ensures: the emission pass writes exactly what the counting pass sized");
+        }
+        Err(_) => assert!(skew != 0 || len < 4096, "ensures: suitable memory is accepted"),
+    }
+}
